@@ -105,7 +105,7 @@ Fixpoint run_steps (steps : list sexp) (s : sys) (prev : list (nat * nat)) : lis
   match steps with
   | [] => []
   | st :: rest =>
-      let s1 := run (clear_log s) (dec_writes (nth_s 0 st)) in
+      let s1 := run_events (clear_log s) (dec_writes (nth_s 0 st)) in
       let s2 := run_all (100 * 100)%nat (as_nats (nth_s 1 st)) s1 in
       observe prev s2 :: run_steps rest s2 (nodes (root s2))
   end.
